@@ -8,6 +8,8 @@
 (*   L6  a top-level leaf over missing required data fails Match and       *)
 (*       passes PartialMatch; over missing optional data it passes         *)
 (*   L4  Match => PartialMatch                                             *)
+(*   L2  the answers for the same statement with every and/or operand list *)
+(*       reversed (rmatch, rpartial, recorded in the same event) are equal *)
 (* (nested statements over missing data are constrained by the order /     *)
 (* monotonicity laws, which the replay checks on real results).            *)
 (* The code-shaped Shape4 is re-checked against Eval4 as an invariant.     *)
@@ -24,6 +26,7 @@ Accepts(e) ==
   LET r == Eval4(e.st, e.data) IN
   /\ ~e.panic
   /\ e.match => e.partial
+  /\ e.rmatch = e.match /\ e.rpartial = e.partial      \* L2: same statement, every operand list reversed
   /\ (AllResolve(e.st, e.data) /\ r # "DC") => (e.match = Passes(r) /\ e.partial = PPasses(r))
   /\ (IsLeaf(e.st) /\ r = "ND")  => (~e.match /\ e.partial)
   /\ (IsLeaf(e.st) /\ r = "OND") => e.match
